@@ -172,13 +172,13 @@ func AnalyzePool(p *load.Program, r *Roles, depth int) *UnitResult {
 			case "select":
 				for _, cs := range ev.Cases {
 					if cs.Send {
-						chk(c, "C12.R2", con("enqueue"), false, ev, "Submit enqueues inside a select: with a default/alternative case a task can be dropped instead of blocking")
+						chk(c, "C12.R2,C09.R6", con("enqueue"), false, ev, "Submit enqueues inside a select: with a default/alternative case a task can be dropped instead of blocking")
 					}
 				}
 			case "go":
-				chk(c, "C08.R1", con("go"), false, ev, "Submit starts a goroutine: concurrency is no longer bounded by the workers")
+				chk(c, "C08.R1,C09.R6", con("go"), false, ev, "Submit starts a goroutine: concurrency is no longer bounded by the workers, and tasks no longer enter the queue in submission order")
 			case "return":
-				chk(c, "C12.R2", con("return"), sends == 1, ev, fmt.Sprintf("Submit returns after enqueuing the task %d times (want exactly once on every path)", sends))
+				chk(c, "C12.R2,C09.R6", con("return"), sends == 1, ev, fmt.Sprintf("Submit returns after enqueuing the task %d times (want exactly once on every path)", sends))
 			}
 			return kvState{s: fmt.Sprintf("adds=%d,sends=%d", adds, sends)}
 		}
@@ -564,6 +564,44 @@ func AnalyzePool(p *load.Program, r *Roles, depth int) *UnitResult {
 			}
 		}
 	}
+	// tasks are taken off the queue (and therefore executed) by the worker function only:
+	// any other receiver is an extra executor beside the c workers
+	badRecv, nRecv := "", 0
+	for _, fn := range p.AllFunctions() {
+		root := fn // the worker function itself when fn is it or is nested in it
+		for root != workerFn && root.Parent() != nil {
+			root = root.Parent()
+		}
+		for _, b := range fn.Blocks {
+			for _, ins := range b.Instrs {
+				var ch ssa.Value
+				switch x := ins.(type) {
+				case *ssa.UnOp:
+					if x.Op == token.ARROW {
+						ch = x.X
+					}
+				case *ssa.Range:
+					ch = x.X
+				case *ssa.Select:
+					for _, st := range x.States {
+						if st.Dir == types.RecvOnly && isTaskChan(st.Chan.Type()) {
+							nRecv++
+							if root != workerFn {
+								badRecv = funcLabel(fn) + " at " + posStr(p.Position(x.Pos()))
+							}
+						}
+					}
+				}
+				if ch != nil && isTaskChan(ch.Type()) {
+					nRecv++
+					if root != workerFn {
+						badRecv = funcLabel(fn) + " at " + posStr(p.Position(ins.Pos()))
+					}
+				}
+			}
+		}
+	}
+	col.Check("C08.R2,C12.R4", "package:task-receivers", badRecv == "" && nRecv > 0 && workerFn != nil, p.Position(r.FnNewWorkerPool.Pos()), "queued tasks are received outside the worker function (an executor beside the workers): "+badRecv, nil)
 	col.Check("C12.R7,C08.R3", "package:pool-field-access", bad == "" && nAcc > 0, p.Position(r.FnNewWorkerPool.Pos()), "the pool's internals are touched outside its own methods: "+bad, nil)
 	return res
 }
